@@ -7,8 +7,10 @@
 (* rules configuration (rules_conditions.md, rules.md) are transcribed as  *)
 (* TLA+ operators over a small abstract typed value domain; Init           *)
 (* enumerates (rule list, trace) vectors, the action Eval computes the     *)
-(* documented outcome (matched rule, keep class, rate) into the state      *)
-(* (EvalRev: the same for the trace with its spans in the opposite order). *)
+(* documented outcome (matched rule, keep class, rate, who decided - the   *)
+(* rule itself or ITS OWN downstream sampler - and the values in the       *)
+(* sample key) into the state (EvalRev: the same for the trace with its    *)
+(* spans in the opposite order).                                           *)
 (* The Go harness builds every rule list as a real rules file, loads it    *)
 (* through the real loader, builds the real trace and compares             *)
 (* GetSampleRate with the outcome computed here.                           *)
@@ -25,7 +27,7 @@
 (***************************************************************************)
 EXTENDS Integers, Sequences, FiniteSets, TLC, Json
 
-CONSTANTS Mode,      \* "single" | "pair" | "list" | "mix" | "ds" | "ds3" | "all" : which families of vectors Init enumerates
+CONSTANTS Mode,      \* "single" | "pair" | "list" | "mix" | "ds" | "all" : which families of vectors Init enumerates
           Big,       \* FALSE: quick bound, TRUE: thorough bound
           PairScopes,\* Mode "pair": the rule scopes enumerated (a subset of {"trace", "span"})
           Faithful   \* TRUE: the graph also contains the known deviation successors
@@ -356,11 +358,14 @@ EvalVec(v, dev) ==
 (* told apart by the reason, so the projection names the first of them;    *)
 (* with unique names that is the rule itself.                              *)
 ScopeWord(r) == IF r.scope = "span" THEN "span" ELSE "trace"
-NameOf(v, i) == IF v.rules[i].name = "#" THEN "r" \o ToString(i) ELSE v.rules[i].name
-SameLook(v, i, j) == /\ NameOf(v, i) = NameOf(v, j)
+\* (a rule named by position, "#", is called r<position>: no other rule has that name)
+SameName(v, i, j) == IF v.rules[i].name = "#" \/ v.rules[j].name = "#" THEN i = j ELSE v.rules[i].name = v.rules[j].name
+SameLook(v, i, j) == /\ SameName(v, i, j)
                      /\ ScopeWord(v.rules[i]) = ScopeWord(v.rules[j])
                      /\ v.rules[i].down.kind = v.rules[j].down.kind
-ObsRule(v, i) == IF i <= 0 THEN i ELSE Min({j \in 1 .. Len(v.rules) : SameLook(v, i, j)})
+ObsRule(v, i) == IF i <= 0 THEN i
+                 ELSE IF v.rules[i].name = "#" THEN i
+                 ELSE Min({j \in 1 .. Len(v.rules) : SameLook(v, i, j)})
 (* How much of the answer of a rule is compared (see Decide): everything,  *)
 (* not the rate (drop rule), not the keep flag, neither.                   *)
 Compared(r) == CASE r.down.kind \in {"det", "dyn"} -> "exact"
@@ -382,7 +387,7 @@ Compared(r) == CASE r.down.kind \in {"det", "dyn"} -> "exact"
 (* reason cannot tell apart (SameLook) are compared differently (the       *)
 (* observer could not know which comparison applies).                      *)
 VecDefined(v) ==
-  /\ \A i, j \in 1 .. Len(v.rules) : SameLook(v, i, j) => Compared(v.rules[i]) = Compared(v.rules[j])
+  /\ \A i, j \in 1 .. Len(v.rules) : (i < j /\ SameLook(v, i, j)) => Compared(v.rules[i]) = Compared(v.rules[j])
   /\ v.trace.hb \in 0 .. HK - 1
   /\ \A i \in 1 .. Len(v.rules) :
     LET r == v.rules[i] IN
@@ -530,8 +535,11 @@ DsDowns ==
 \* <<drop, rate, down>>
 DsActions == {<<FALSE, 1, NoDown>>, <<TRUE, 0, NoDown>>} \cup {<<FALSE, 0, d>> : d \in DsDowns}
              \cup (IF Big THEN {<<FALSE, 3, NoDown>>, <<FALSE, 5, Det(2)>>, <<TRUE, 0, Det(3)>>} ELSE {})
-DsRules(sc) == {NRule(nm, sc, cs, a[1], a[2], a[3]) : nm \in DsNames, cs \in DsConds, a \in DsActions}
-DsBuckets == IF Big THEN {1, 2, 5} ELSE {0, 5}
+\* Scope span is enumerated for unnamed rules only
+DsActions3 == {a \in DsActions : a[3].kind \notin {"emat", "win"} /\ ~(a[3].kind # "none" /\ (a[1] \/ a[2] > 0))}
+DsRules(sc) == {NRule(nm, sc, cs, a[1], a[2], a[3]) : nm \in (IF sc = "span" THEN {""} ELSE DsNames), cs \in DsConds, a \in DsActions}
+\* bucket 0: every rate keeps; 2: rates 1, 2 keep, rates 3, 6 drop; 5: only rate 1 keeps
+DsBuckets == IF Big THEN {2, 5} ELSE {0, 5}
 DsTraces == {[spans |-> << [f |-> fv, g |-> S("ab")] >>, root |-> 1, hb |-> h] : fv \in {S("a"), S("b")}, h \in DsBuckets}
 \* three rules, f = "a" / f = "b" / f exists, one Name for all; the third catches f = "ab"
 DsTriples ==
@@ -539,9 +547,9 @@ DsTriples ==
      NRule(nm, sc, << C1(FF, "=", "none", S("b")) >>, a2[1], a2[2], a2[3]),
      NRule(nm, sc, << C1(FF, "exists", "none", NoVal) >>, a3[1], a3[2], a3[3])>>
      : nm \in DsNames, sc \in {""},
-       a1 \in DsActions, a2 \in DsActions, a3 \in {a \in DsActions : a[3].kind \in {"none", "det", "dyn"}}}
+       a1 \in DsActions3, a2 \in DsActions3, a3 \in {a \in DsActions3 : a[3].kind \in {"none", "det", "dyn"} /\ a[3].rate <= 2 /\ a[2] <= 1}}
 DsTripleTraces == {[spans |-> << [f |-> fv, g |-> S("ab")] >>, root |-> 1, hb |-> h]
-                      : fv \in {S("a"), S("b"), S("ab")}, h \in (IF Big THEN {1, 5} ELSE {5})}
+                      : fv \in {S("a"), S("b"), S("ab")}, h \in (IF Big THEN {2} ELSE {5})}
 DsPairVecs ==
   UNION {{[rules |-> <<r1, r2>>, trace |-> tr] : r1 \in DsRules(sc), r2 \in DsRules(sc), tr \in DsTraces}
          : sc \in (IF Big THEN {"", "span"} ELSE {""})}
@@ -551,8 +559,7 @@ Vecs == CASE Mode = "single" -> SingleVecs
           [] Mode = "pair"   -> PairVecs
           [] Mode = "list"   -> ListVecs
           [] Mode = "mix"    -> MixVecs
-          [] Mode = "ds"     -> DsPairVecs
-          [] Mode = "ds3"    -> DsTripleVecs
+          [] Mode = "ds"     -> DsPairVecs \cup DsTripleVecs
           [] Mode = "all"    -> SingleVecs \cup PairVecs \cup ListVecs \cup MixVecs \cup DsPairVecs \cup DsTripleVecs
 
 ---------------------------------------------------------------------------
@@ -647,12 +654,13 @@ Delegation ==
 
 \* C08, the same as non-interference: the answer for a trace depends only on the rule that matched -
 \* not on what the OTHER rules of the list delegate to, nor on how any rule is called
-ProbeDowns == {NoDown, Det(1), Det(2), Dyn(1, <<"g">>), Tot(5, <<"f">>)}
+\* (vacuous for a single rule; checked on the rule lists)
+ProbeDowns == {NoDown, Det(2), Dyn(1, <<"g">>)}
 OwnSampler ==
-  ~Evaluated =>
+  (~Evaluated /\ Len(vec.rules) > 1) =>
      LET o == EvalVec(vec, FALSE) IN
      \A j \in 1 .. Len(vec.rules) :
-        /\ \A nm \in {"", "n", "#"} : EvalVec([vec EXCEPT !.rules[j].name = nm], FALSE) = o
+        /\ \A nm \in {"", "#"} \ {vec.rules[j].name} : EvalVec([vec EXCEPT !.rules[j].name = nm], FALSE) = o
         /\ \A d \in ProbeDowns :
              LET v2 == [vec EXCEPT !.rules[j].down = d]
                  o2 == EvalVec(v2, FALSE)
